@@ -157,6 +157,13 @@ def D14():
     assert all(m.registered for _, m in t.named_monitors), "a surviving cell's monitor was deregistered"
 
 
+def D23():
+    from inferno.neural import HomogeneousPoissonEncoder
+    e = HomogeneousPoissonEncoder(50, 1.0, 100.0, refrac=3.0, generator=torch.Generator().manual_seed(0))
+    out = list(e(torch.tensor([0.1, 0.5, 1.0]), online=True))
+    assert len(out) == 50 and all(o.dtype == torch.bool and tuple(o.shape) == (3,) for o in out)
+
+
 if __name__ == "__main__":
     names = sys.argv[1:] or [k for k in sorted(globals()) if k.startswith("D") and k[1:].isdigit()]
     bad = 0
